@@ -84,7 +84,9 @@ def run(ctx):
       'with every subset of <= 2 (thorough 3) late replies (2-3 workers, 2-4 '
       'tasks); worker shuffles as environment choices (every rotation) combined '
       'with faults, <= 2 (3) deviations; a killed worker rejoining at any later '
-      'RPC boundary (kill + restart, thorough + 1 fault). A case = one complete run; distinct = distinct '
+      'RPC boundary (kill + restart, thorough + 1 fault); every sequence of <= 4 '
+      '(5) registry events with a death announcement followed by an alive '
+      'announcement (the announcement must be recorded). A case = one complete run; distinct = distinct '
       '(configuration, fault placement).')
   ctx.assumptions += [
       'fake transport: a call runs its handler at most once; deadline errors '
@@ -137,6 +139,18 @@ def run(ctx):
   explorer.explore_all(ctx, MODULE, rejoin, pre_bound=-1,
                        dev_bound=2 if ctx.quick else 3, split=8)
   ctx.notes['rejoin_configurations'] = len(rejoin)
+  # rejoin at the registry level: every sequence of <= 4 (5) registry events in
+  # which a worker announces its death (graceful shutdown / preemption) and
+  # later announces itself alive again: the announcement must be recorded
+  import itertools
+  alphabet = ('push-dead', 'push', 'poll', 'tick30', 'tick200', 'call')
+  seqs = [ops for n in range(2, 5 if ctx.quick else 6)
+          for ops in itertools.product(alphabet, repeat=n)
+          if 'push-dead' in ops and 'push' in ops[ops.index('push-dead'):]]
+  explorer.explore_all(ctx, MODULE,
+                       [('liveness', dict(ops=list(ops), rejoin=True))
+                        for ops in seqs], pre_bound=-1, dev_bound=0)
+  ctx.notes['rejoin_event_sequences'] = len(seqs)
   shc = sharded_configs(ctx.tier)
   explorer.explore_all(ctx, MODULE, shc, pre_bound=-1, dev_bound=dev,
                        split=0 if ctx.quick else 8)
